@@ -287,7 +287,19 @@ impl<'tx> Tx<'tx> {
             root.spill(&mut freelist)?
         };
         tx.meta.root = meta;
-        tx.write_data(&mut freelist)
+        let result = tx.write_data(&mut freelist);
+        // The shared free list must describe whichever header the next transaction will read.
+        // If the new header reached the file it is the current one even when a later step
+        // (the final sync) reported an error, so the free list has to follow it; otherwise later
+        // commits would hand out pages that the visible header still uses.
+        let header_visible = match &result {
+            Ok(()) => true,
+            Err(_) => matches!(tx.db.inner.meta(), Ok(m) if m.tx_id == tx.meta.tx_id),
+        };
+        if header_visible {
+            tx.publish_freelist(&freelist)?;
+        }
+        result
     }
 
     pub(crate) fn check(&self) -> Result<()> {
@@ -377,22 +389,27 @@ impl<'tx> TxInner<'tx> {
             file.flush()?;
             file.sync_all()?;
 
-            #[cfg(feature = "verif-hooks")]
-            crate::verif_hooks::emit("commit:before_publish", &[self.meta.tx_id], &[]);
-            let mut lock = self.db.inner.freelist.lock()?;
-            *lock = freelist.inner.clone();
-            #[cfg(feature = "verif-hooks")]
-            {
-                let mut v = vec![self.meta.tx_id, self.meta.num_pages, self.meta.freelist_page, self.meta.root.root_page];
-                v.extend(lock.verif_dump());
-                crate::verif_hooks::emit("publish", &v, &[]);
-                drop(lock);
-                crate::verif_hooks::emit("commit:after_publish", &[self.meta.tx_id], &[]);
-            }
             Ok(())
         } else {
             unreachable!()
         }
+    }
+
+    // Makes this transaction's free list the shared one.
+    fn publish_freelist(&self, freelist: &TxFreelist) -> Result<()> {
+        #[cfg(feature = "verif-hooks")]
+        crate::verif_hooks::emit("commit:before_publish", &[self.meta.tx_id], &[]);
+        let mut lock = self.db.inner.freelist.lock()?;
+        *lock = freelist.inner.clone();
+        #[cfg(feature = "verif-hooks")]
+        {
+            let mut v = vec![self.meta.tx_id, self.meta.num_pages, self.meta.freelist_page, self.meta.root.root_page];
+            v.extend(lock.verif_dump());
+            crate::verif_hooks::emit("publish", &v, &[]);
+            drop(lock);
+            crate::verif_hooks::emit("commit:after_publish", &[self.meta.tx_id], &[]);
+        }
+        Ok(())
     }
 
     fn check(&self) -> Result<()> {
